@@ -75,6 +75,25 @@ def gen_scenarios(v, tier, seed, rng):
         sc["threads"] = 2
         sc["np"] = 3
         scen.append(sc)
+    # deletion racing with arrivals (4 threads with one operation each): the sweep passes piece 0, waits for piece 1 to be hashed,
+    # piece 0 arrives again and is verified meanwhile.  The deviation "deleted_last" (the flag latched after the sweep) must be refuted.
+    r = run_tlc("GenPieceStore", "PieceStore_dellast.cfg", workers=2, timeout=900)
+    if r.violation not in ("DelReleasesAll", "OnlyVerified"):
+        raise Internal("PieceStore_dellast.cfg: the deviation is not refuted (%s / %s)" % (r.violation, r.error))
+    os.unlink(r.outfile)
+    r = run_tlc("GenPieceStore", "PieceStore_edgesDelRace.cfg", workers=1, timeout=900)
+    require_ok(r, "edge dump PieceStore_edgesDelRace.cfg")
+    g3 = Graph.from_result(r, is_init)
+    os.unlink(r.outfile)
+    walks3, unc = g3.covering_walks(rng, maxlen=40)
+    if unc or not g3.inits:
+        raise Internal("edge dump PieceStore_edgesDelRace.cfg: %d edges unreachable" % unc)
+    v.cov["edge_graph_delrace"] = {"states": len(g3.states), "edges": g3.nedges, "covering_walks": len(walks3)}
+    for w in walks3:
+        sc = g3.scenario(w, "")
+        sc["threads"] = 4
+        sc["np"] = 2
+        scen.append(sc)
     # simulation: 4 threads, 3 pieces
     n = 1500 if tier == "quick" else 20000
     r = run_tlc("GenPieceStore", "PieceStore_sim.cfg", workers=1, simulate=n, depth=40, seed=seed, timeout=1800)
@@ -212,7 +231,7 @@ def run(prop, tier, seed, replay=None):
             f.write(json.dumps(sc, separators=(",", ":")) + "\n")
     out, err = vlib.run_harness(vh, ["piecestore", "-in", sf, "-out", rf, "-parallel", "12", "-timeout", "40"], timeout=7200)
     log(out.strip())
-    events = {"2": [], "2x3": [], "3": [], "4": []}
+    events = {"2": [], "2x3": [], "3": [], "4": [], "4x2": []}
     stress_stats = {"runs": 0, "reads": 0, "reads_returning_data": 0, "blocks_added": 0, "pieces_verified": 0, "evictions": 0}
     scen_by_id = {}
     nres = 0
@@ -252,7 +271,7 @@ def run(prop, tier, seed, replay=None):
                 stress_stats[a] += o.get(b, 0)
             continue
         steps_total += o.get("steps_done", 0)
-        nt = str(sc.get("threads", 2)) + ("x3" if sc.get("np") == 3 else "")
+        nt = str(sc.get("threads", 2)) + ("x3" if sc.get("np") == 3 else "") + ("x2" if sc.get("np") == 2 else "")
         for k, e in enumerate(o.get("events") or []):
             events[nt].append((sid, k, e))
         if "random" not in sc and "stress" not in sc:
